@@ -84,6 +84,140 @@ Definition set_last (cur c : conf) : conf := if (c_id cur =? c_id c)%N then cur 
 (* a participant started on [init] that then received [updates] in this order *)
 Definition run_history (init : conf) (updates : list conf) : conf := fold_left set_last updates init.
 
+(* ---------------------------------------------------------------- service lives: starts, restarts, the local store
+   service.Init (nodeconf/service.go), in the order of the code:
+     1. s.accountId := the participant's own peer id (account service)                 - FIRST
+     2. lastStored := store.GetLast(networkId); ErrConfigurationNotFound => lastStored := app config (nothing saved)
+        otherwise mergeCoordinatorAddrs(app config, lastStored): every coordinator-typed node of the app configuration
+        (the one bundled with the binary) that the stored configuration does not have as a coordinator is appended to
+        it, every address of a known one that the stored node lacks is appended to that node; if anything was added:
+        lastStored.Id := "-1", saveAndSetLastConfiguration(lastStored)
+     3. setLastConfiguration(lastStored)   (same id as the active one => ignored)
+   setLastConfiguration builds the nodeConf of the configuration and stamps it with s.accountId: NodeIds /
+   IsResponsible are answered by that nodeConf with ITS account id.
+   saveAndSetLastConfiguration (also the update path): store.SaveLast (always), then setLastConfiguration.
+   A participant's LIFE is a first start (with whatever its store holds) followed by events: a configuration delivered
+   by the source to the running service, or a restart of the process (new service object, same identity, same store)
+   with some app configuration. *)
+Definition T_COORD : N := 4.
+Definition MERGED_ID : N := 0.       (* Configuration.Id "-1" (the harness numbers every other id from 1) *)
+
+Definition is_coord (n : node) : bool := has_type T_COORD n.
+
+(* the map peerId -> *Node built from the coordinator nodes of a list: a later node with the same peer id overwrites
+   an earlier one *)
+Fixpoint last_coord (id : N) (ns : list node) : option node :=
+  match ns with
+  | [] => None
+  | n :: r =>
+      match last_coord id r with
+      | Some m => Some m
+      | None => if is_coord n && (n_id n =? id)%N then Some n else None
+      end
+  end.
+
+(* the entries of that map for the app configuration, one per peer id (Go iterates the map in an unspecified order;
+   here: the order of the entries in the configuration - the order only permutes the appended nodes) *)
+Fixpoint coord_entries (ns : list node) : list node :=
+  match ns with
+  | [] => []
+  | n :: r =>
+      if is_coord n && negb (existsb (fun m => is_coord m && (n_id m =? n_id n)%N) r)
+      then n :: coord_entries r else coord_entries r
+  end.
+
+(* apply [f] to the LAST coordinator node with peer id [id] (the node the map entry points to) *)
+Fixpoint upd_last (id : N) (f : node -> node) (ns : list node) : list node * bool :=
+  match ns with
+  | [] => ([], false)
+  | n :: r =>
+      let '(r', done) := upd_last id f r in
+      if done then (n :: r', true)
+      else if is_coord n && (n_id n =? id)%N then (f n :: r', true) else (n :: r', false)
+  end.
+
+Definition add_addrs (extra : list N) (n : node) : node := mkNode (n_id n) (n_addrs n ++ extra) (n_types n).
+
+(* one iteration of the loop over the app configuration's coordinator nodes; [st0] is the stored node list the map
+   storedNodesByPeer was built from, [acc] = (stored node list so far, mustRewriteLocalConfig) *)
+Definition merge_step (st0 : list node) (acc : list node * bool) (a : node) : list node * bool :=
+  match last_coord (n_id a) st0 with
+  | Some sn =>
+      match filter (fun x => negb (memN x (n_addrs sn))) (n_addrs a) with
+      | [] => acc
+      | miss => (fst (upd_last (n_id a) (add_addrs miss) (fst acc)), true)
+      end
+  | None => (fst acc ++ [a], true)
+  end.
+
+(* mergeCoordinatorAddrs(appConfig, lastStored) = (lastStored afterwards, mustRewriteLocalConfig) *)
+Definition merge_coord (app st : list node) : list node * bool :=
+  fold_left (merge_step st) (coord_entries app) (st, false).
+
+(* the nodeConf held by a service: the configuration and the account id it was stamped with *)
+Record nconf := mkNC {
+  nc_conf    : conf;
+  nc_account : N
+}.
+
+Record service := mkSvc {
+  s_account : N;              (* service.accountId *)
+  s_store   : option conf;    (* what store.GetLast would return (None: ErrConfigurationNotFound) *)
+  s_last    : option nconf    (* service.last (None: nil) *)
+}.
+
+Definition svc_set_last (s : service) (c : conf) : service :=
+  let install := mkSvc (s_account s) (s_store s) (Some (mkNC c (s_account s))) in
+  match s_last s with
+  | Some nc => if (c_id (nc_conf nc) =? c_id c)%N then s else install
+  | None => install
+  end.
+
+Definition svc_save_and_set (s : service) (c : conf) : service :=
+  svc_set_last (mkSvc (s_account s) (Some c) (s_last s)) c.
+
+Definition svc_init (self : N) (store : option conf) (app : conf) : service :=
+  let s := mkSvc self store None in
+  match store with
+  | None => svc_set_last s app
+  | Some st =>
+      let '(nodes', must_rewrite) := merge_coord (c_nodes app) (c_nodes st) in
+      if must_rewrite
+      then let m := mkConf MERGED_ID nodes' in svc_set_last (svc_save_and_set s m) m
+      else svc_set_last s st
+  end.
+
+Inductive event :=
+| EStart (app : conf)     (* the process is restarted with this app configuration *)
+| EUpd (c : conf).        (* the source delivers this configuration to the running service *)
+
+Definition svc_step (s : service) (e : event) : service :=
+  match e with
+  | EStart app => svc_init (s_account s) (s_store s) app
+  | EUpd c => svc_save_and_set s c
+  end.
+
+Definition life (self : N) (store0 : option conf) (app0 : conf) (evs : list event) : service :=
+  fold_left svc_step evs (svc_init self store0 app0).
+
+(* the active configuration (Service.Configuration()) *)
+Definition svc_conf (s : service) : conf :=
+  match s_last s with Some nc => nc_conf nc | None => mkConf 0 [] end.
+(* the identity its answers are computed for *)
+Definition svc_self (s : service) : N :=
+  match s_last s with Some nc => nc_account nc | None => 0%N end.
+
+Section ServiceAnswers.
+  Variable PH : list N.
+  Variable VH : N -> list N.
+  Variable KH : list N -> N.
+  (* Service.NodeIds / IsResponsible: delegated to the active nodeConf *)
+  Definition svc_node_ids (s : service) (space : list N) : outcome (list N) :=
+    node_ids PH VH KH (c_nodes (svc_conf s)) (svc_self s) space.
+  Definition svc_is_responsible (s : service) (space : list N) : outcome bool :=
+    is_responsible PH VH KH (c_nodes (svc_conf s)) (svc_self s) space.
+End ServiceAnswers.
+
 (* ---------------------------------------------------------------- observations and the property predicate *)
 (* What one participant reports for one space id. *)
 Record obs := mkObs {
